@@ -51,7 +51,7 @@ def programs(ctx, n, small=False):
     rng = ctx.rng("progs")
     out = [c["prog"] for c in ctx.corpus()]
     while len(out) < n:
-        p = op.gen_program(rng, max_calls=2 if small else 4)
+        p = op.gen_cohandler_program(rng) if rng.random() < 0.25 else op.gen_program(rng, max_calls=2 if small else 4)
         if op.n_starts(p) <= 1:
             out.append(p)
     return out
